@@ -355,6 +355,7 @@ class Check:
         e = dict(os.environ)
         if env:
             e.update(env)
+        e["VERIF_CURRENT"] = summary + ".current"
         t = time.time()
         try:
             r = subprocess.run([binary] + [str(a) for a in args] + ["--summary", summary], cwd=VERIF, env=e,
@@ -362,6 +363,19 @@ class Check:
         except subprocess.TimeoutExpired:
             raise ToolError(f"harness {tag} timed out")
         dt = time.time() - t
+        cur = summary + ".current"
+        if r.returncode < 0 and os.path.exists(cur):
+            # the process died on a signal (abort on allocation failure, stack overflow) while running
+            # the recorded case: that is an observation about the code under test, not a tool error
+            case = json.load(open(cur))
+            log(f"[harness] {tag}: killed by signal {-r.returncode} while running {json.dumps(case)[:200]}")
+            return {"model": tag, "props": {self.prop: {"evaluations": 1, "distinct_nontrivial": 0, "violations": 1,
+                                                           "drift": 0, "samples": [case]}},
+                    "violations": [{"property": self.prop, "case": case,
+                                    "why": f"process killed by signal {-r.returncode} while running this case: "
+                                           + r.stderr[-300:],
+                                    "class": {"kind": "abort", "signal": -r.returncode}}],
+                    "drift": [], "extra": {}}
         if r.returncode != 0 or not os.path.exists(summary):
             log(r.stdout[-3000:])
             log(r.stderr[-3000:])
